@@ -130,6 +130,12 @@ theorem fromBond_reflexive (b : MBond) (st : Option Bool) (fs fr : Bool) : bondE
 theorem not_dict_is_complement :
     ∀ p ∈ notDict, ∀ o ∈ [1, 2, 3, 4], (p.2.contains o) = (some o != (replaceDict.lookup p.1)) := by decide +kernel
 
+/-- the regenerated `charge_dict` gives every documented charge spelling its Daylight meaning, and nothing else -/
+theorem charge_dict_spec :
+    (∀ kv ∈ chargeDict, chargeMeaning kv.1 = some kv.2) ∧
+    (∀ t ∈ documentedChargeTexts, lookupC t chargeDict = chargeMeaning t ∧ (chargeMeaning t).isSome = true) := by
+  decide +kernel
+
 /-- the order symbols denote 1, 2, 3, 4 and 8 (any / coordination bond) -/
 theorem replace_dict_table : replaceDict = [('-', 1), ('=', 2), ('#', 3), (':', 4), ('~', 8)] := by decide +kernel
 
